@@ -367,8 +367,8 @@ def rule_e(ctx):
 
 def run(ctx):
     E = Effects(ctx.model)
-    rule_a(ctx, E)
-    rule_b(ctx, E)
-    rule_c(ctx, E)
-    rule_d(ctx)
-    rule_e(ctx)
+    ctx.guard(rule_a, ctx, E)
+    ctx.guard(rule_b, ctx, E)
+    ctx.guard(rule_c, ctx, E)
+    ctx.guard(rule_d, ctx)
+    ctx.guard(rule_e, ctx)
